@@ -18,6 +18,7 @@ import (
 	"sort"
 	"strconv"
 	"strings"
+	"sync"
 
 	"golang.org/x/tools/go/callgraph"
 	"golang.org/x/tools/go/ssa"
@@ -247,9 +248,38 @@ func callMatches(c *ssa.CallCommon, callee string, pats []string) bool {
 	case strings.HasSuffix(name, ").WriteString") && len(c.Args) == 2 && !c.IsInvoke():
 		alias = strings.TrimSuffix(name, "String")
 		terms = []string{prov.Of(c.Args[0]), "conv(" + prov.Of(c.Args[1]) + ")"}
+	case (name == "(*bytes.Buffer).WriteTo" || name == "(*bytes.Reader).WriteTo") && len(c.Args) == 2:
+		// buf.WriteTo(w) drains buf into w exactly as io.Copy(w, buf) does
+		alias = "io.Copy"
+		terms = []string{prov.Of(c.Args[1]), prov.Of(c.Args[0])}
 	case name == "invoke:io.StringWriter.WriteString" && len(c.Args) == 1:
 		alias = "invoke:io.Writer.Write"
 		terms = []string{prov.Of(c.Value), "conv(" + prov.Of(c.Args[0]) + ")"}
+	case name == "builtin:append" && len(c.Args) == 2 && len(pats) >= 1 && strings.HasPrefix(pats[0], "local:") && LocalByteAcc(c.Args[0]):
+		// output built by appending to a local byte slice instead of writing to
+		// a local bytes.Buffer: append(acc, x...) = buf.Write(x),
+		// append(acc, s...) = buf.WriteString(s), append(acc, b) = buf.WriteByte(b)
+		recv := pats[0]
+		if strings.ContainsAny(recv, "*{|") {
+			recv = "local:buf"
+		}
+		if b, ok := c.Args[1].Type().Underlying().(*types.Basic); ok && b.Info()&types.IsString != 0 {
+			if prov.Match(callee, "(*bytes.Buffer).WriteString") {
+				alias = "(*bytes.Buffer).WriteString"
+				terms = []string{recv, prov.Of(c.Args[1])}
+			} else {
+				alias = "(*bytes.Buffer).Write"
+				terms = []string{recv, "conv(" + prov.Of(c.Args[1]) + ")"}
+			}
+		} else if el := varargElems(c.Args[1]); len(el) == 1 {
+			alias = "(*bytes.Buffer).WriteByte"
+			terms = []string{recv, prov.Of(el[0])}
+		} else if el == nil {
+			alias = "(*bytes.Buffer).Write"
+			terms = []string{recv, prov.Of(c.Args[1])}
+		} else {
+			return false
+		}
 	default:
 		return false
 	}
@@ -267,13 +297,109 @@ func callMatches(c *ssa.CallCommon, callee string, pats []string) bool {
 	return true
 }
 
+// LocalByteAcc: v is a byte slice built up locally: a make([]byte, ...), a nil
+// or empty []byte, x[:0] of such, an append to such, or a merge of those.
+func LocalByteAcc(v ssa.Value) bool {
+	return localByteAcc(v, 0, map[ssa.Value]bool{})
+}
+
+func localByteAcc(v ssa.Value, d int, seen map[ssa.Value]bool) bool {
+	if d > 12 {
+		return false
+	}
+	if seen[v] {
+		return true
+	}
+	seen[v] = true
+	sl, ok := v.Type().Underlying().(*types.Slice)
+	if !ok {
+		return false
+	}
+	if b, ok := sl.Elem().Underlying().(*types.Basic); !ok || b.Kind() != types.Uint8 {
+		return false
+	}
+	switch x := v.(type) {
+	case *ssa.MakeSlice:
+		return true
+	case *ssa.Const:
+		return x.IsNil()
+	case *ssa.Slice:
+		if _, isAlloc := x.X.(*ssa.Alloc); isAlloc {
+			return true // a fresh backing array ([]byte{} or make with constant size)
+		}
+		return localByteAcc(x.X, d+1, seen)
+	case *ssa.Phi:
+		for _, e := range x.Edges {
+			if !localByteAcc(e, d+1, seen) {
+				return false
+			}
+		}
+		return true
+	case *ssa.Call:
+		if bi, ok := x.Call.Value.(*ssa.Builtin); ok && bi.Name() == "append" && len(x.Call.Args) == 2 {
+			return localByteAcc(x.Call.Args[0], d+1, seen)
+		}
+	}
+	return false
+}
+
+// varargElems: the explicit elements of a variadic argument (nil when the
+// argument is a spread slice x...).
+func varargElems(v ssa.Value) []ssa.Value {
+	sl, ok := v.(*ssa.Slice)
+	if !ok {
+		return nil
+	}
+	al, ok := sl.X.(*ssa.Alloc)
+	if !ok || al.Comment != "varargs" || al.Referrers() == nil {
+		return nil
+	}
+	var out []ssa.Value
+	for _, r := range *al.Referrers() {
+		ia, ok := r.(*ssa.IndexAddr)
+		if !ok || ia.Referrers() == nil {
+			continue
+		}
+		for _, rr := range *ia.Referrers() {
+			if st, ok := rr.(*ssa.Store); ok && st.Addr == ia {
+				out = append(out, st.Val)
+			}
+		}
+	}
+	if out == nil {
+		out = []ssa.Value{}
+	}
+	return out
+}
+
 // CallOK: the call to callee (resolved name, glob allowed) returned a nil
 // error; args are provenance patterns for receiver+arguments ("" = any).
 func CallOK(key, callee string, args ...string) Gate {
 	return Gate{Key: key, Desc: "ok(" + callee + "(" + strings.Join(args, ",") + "))",
 		Edge: func(f Fact) bool {
 			return f.Kind == FErrNil && callMatches(&f.Call.Call, callee, args)
+		},
+		// a callee that cannot report failure (no error among its results) has
+		// succeeded once it has been executed
+		Instr: func(in ssa.Instruction) bool {
+			c, ok := in.(*ssa.Call)
+			if !ok || !callMatches(&c.Call, callee, args) {
+				return false
+			}
+			return !hasErrorResult(c.Call.Signature())
 		}}
+}
+
+func hasErrorResult(sig *types.Signature) bool {
+	if sig == nil {
+		return true
+	}
+	for i := 0; i < sig.Results().Len(); i++ {
+		if types.Identical(sig.Results().At(i).Type(), types.Universe.Lookup("error").Type()) {
+			return true
+		}
+	}
+	return false
 }
 
 // CallBool: the bool result of the call equals want.
@@ -1434,7 +1560,11 @@ func (c *Ctx) ExitsUnder(fn *ssa.Function, idx int) []string {
 		switch t := b.Instrs[len(b.Instrs)-1].(type) {
 		case *ssa.Return:
 			if idx < len(t.Results) {
-				set[prov.Of(t.Results[idx])] = true
+				if v, ok := c.evalInt(t.Results[idx], 0); ok {
+					set["const:"+v.ExactString()] = true
+				} else {
+					set[prov.Of(t.Results[idx])] = true
+				}
 			}
 		case *ssa.Panic:
 			set["panic"] = true
@@ -1674,6 +1804,43 @@ func (c *Ctx) evalInt(v ssa.Value, d int) (constant.Value, bool) {
 		if n > 0 {
 			return got, true
 		}
+	case *ssa.UnOp:
+		// an element of a package-level constant table (array literal that only
+		// the package initialiser writes)
+		if x.Op == token.MUL {
+			if ia, ok := x.X.(*ssa.IndexAddr); ok {
+				if g, ok := ia.X.(*ssa.Global); ok {
+					if idx, ok := c.evalInt(ia.Index, d+1); ok {
+						if tab, ok := c.constTable(g); ok {
+							if i, exact := constant.Int64Val(idx); exact && i >= 0 && i < tab.n {
+								if v, set := tab.vals[constant.MakeInt64(i).ExactString()]; set {
+									return v, true
+								}
+								return constant.MakeInt64(0), true
+							}
+						}
+					}
+				}
+			}
+		}
+	case *ssa.Lookup:
+		// ... or of a package-level map literal with integer values (the
+		// comma-ok form and missing keys are not evaluated)
+		if ld, ok := x.X.(*ssa.UnOp); ok && ld.Op == token.MUL && !x.CommaOk {
+			if g, ok := ld.X.(*ssa.Global); ok {
+				if tab, ok := c.constTable(g); ok {
+					key := ""
+					if k, ok := x.Index.(*ssa.Const); ok && k.Value != nil {
+						key = k.Value.ExactString()
+					} else if kv, ok := c.evalInt(x.Index, d+1); ok {
+						key = kv.ExactString()
+					}
+					if v, set := tab.vals[key]; set && key != "" {
+						return v, true
+					}
+				}
+			}
+		}
 	case *ssa.BinOp:
 		l, ok1 := c.evalInt(x.X, d+1)
 		r, ok2 := c.evalInt(x.Y, d+1)
@@ -1698,6 +1865,174 @@ func (c *Ctx) evalInt(v ssa.Value, d int) (constant.Value, bool) {
 		}
 	}
 	return nil, false
+}
+
+// constTab: a package-level table of integer constants, filled by the package
+// initialiser and never written elsewhere.
+type constTab struct {
+	n    int64 // array length (-1 for maps)
+	vals map[string]constant.Value
+}
+
+var (
+	constTabMu   sync.Mutex
+	constTabMemo = map[*ssa.Global]*constTab{}
+)
+
+func (c *Ctx) constTable(g *ssa.Global) (*constTab, bool) {
+	constTabMu.Lock()
+	defer constTabMu.Unlock()
+	if t, ok := constTabMemo[g]; ok {
+		return t, t != nil
+	}
+	t := c.buildConstTable(g)
+	constTabMemo[g] = t
+	return t, t != nil
+}
+
+func (c *Ctx) buildConstTable(g *ssa.Global) *constTab {
+	if g.Pkg == nil {
+		return nil
+	}
+	init := g.Pkg.Func("init")
+	if init == nil {
+		return nil
+	}
+	tab := &constTab{n: -1, vals: map[string]constant.Value{}}
+	if at, ok := g.Type().(*types.Pointer).Elem().Underlying().(*types.Array); ok {
+		tab.n = at.Len()
+	}
+	intConst := func(v ssa.Value) (constant.Value, bool) {
+		for {
+			switch x := v.(type) {
+			case *ssa.Const:
+				if x.Value != nil && x.Value.Kind() == constant.Int {
+					return x.Value, true
+				}
+				return nil, false
+			case *ssa.Convert:
+				v = x.X
+			case *ssa.ChangeType:
+				v = x.X
+			default:
+				return nil, false
+			}
+		}
+	}
+	// every use of g anywhere in the module
+	for _, fn := range c.P.Funcs {
+		for _, b := range fn.Blocks {
+			for _, in := range b.Instrs {
+				uses := false
+				for _, op := range in.Operands(nil) {
+					if *op == ssa.Value(g) {
+						uses = true
+					}
+				}
+				if !uses {
+					continue
+				}
+				switch x := in.(type) {
+				case *ssa.IndexAddr:
+					// element address: stores only in init (constants), loads anywhere
+					for _, r := range *x.Referrers() {
+						switch y := r.(type) {
+						case *ssa.Store:
+							k, okK := x.Index.(*ssa.Const)
+							v, okV := intConst(y.Val)
+							if fn != init || y.Addr != ssa.Value(x) || !okK || !okV || k.Value == nil {
+								return nil
+							}
+							tab.vals[k.Value.ExactString()] = v
+						case *ssa.UnOp:
+							if y.Op != token.MUL {
+								return nil
+							}
+						case *ssa.DebugRef:
+						default:
+							return nil
+						}
+					}
+				case *ssa.UnOp:
+					// load of the map / array value: read-only uses
+					if x.Op != token.MUL {
+						return nil
+					}
+					for _, r := range *x.Referrers() {
+						switch y := r.(type) {
+						case *ssa.Lookup, *ssa.Index, *ssa.Range, *ssa.DebugRef:
+						case *ssa.Call:
+							if bi, ok := y.Call.Value.(*ssa.Builtin); !ok || bi.Name() != "len" {
+								return nil
+							}
+						default:
+							return nil
+						}
+					}
+				case *ssa.Store:
+					// the map literal assigned in init: g = makemap; m[k] = v ...
+					mm, ok := x.Val.(*ssa.MakeMap)
+					if fn != init || x.Addr != ssa.Value(g) || !ok {
+						return nil
+					}
+					for _, r := range *mm.Referrers() {
+						switch y := r.(type) {
+						case *ssa.MapUpdate:
+							k, okK := y.Key.(*ssa.Const)
+							v, okV := intConst(y.Value)
+							if !okK || !okV || k.Value == nil {
+								return nil
+							}
+							tab.vals[k.Value.ExactString()] = v
+						case *ssa.Store, *ssa.DebugRef:
+						default:
+							return nil
+						}
+					}
+				case *ssa.DebugRef:
+				default:
+					return nil
+				}
+			}
+		}
+	}
+	// the initialiser itself is not in P.Funcs when it has no source body
+	if len(tab.vals) == 0 {
+		for _, b := range init.Blocks {
+			for _, in := range b.Instrs {
+				st, ok := in.(*ssa.Store)
+				if !ok {
+					continue
+				}
+				if ia, ok := st.Addr.(*ssa.IndexAddr); ok && ia.X == ssa.Value(g) {
+					k, okK := ia.Index.(*ssa.Const)
+					v, okV := intConst(st.Val)
+					if !okK || !okV || k.Value == nil {
+						return nil
+					}
+					tab.vals[k.Value.ExactString()] = v
+				}
+				if st.Addr == ssa.Value(g) {
+					if mm, ok := st.Val.(*ssa.MakeMap); ok {
+						for _, r := range *mm.Referrers() {
+							if y, ok := r.(*ssa.MapUpdate); ok {
+								k, okK := y.Key.(*ssa.Const)
+								v, okV := intConst(y.Value)
+								if !okK || !okV || k.Value == nil {
+									return nil
+								}
+								tab.vals[k.Value.ExactString()] = v
+							}
+						}
+					}
+				}
+			}
+		}
+	}
+	if len(tab.vals) == 0 {
+		return nil
+	}
+	return tab
 }
 
 // edgeFeasible: the CFG edge pred -> b can be taken under the assumptions
